@@ -28,7 +28,7 @@ ASSUMPTIONS = [
 ]
 
 LOCAL = '10.0.0.1'
-FAULTS = ['syntax', 'keyword', 'raise', 'torn', 'enoent', 'eacces', 'eio', 'brace']
+FAULTS = ['syntax', 'keyword', 'raise', 'torn', 'enoent', 'eacces', 'eio', 'brace', 'semantic']
 
 
 def counts(tier: str):
@@ -128,6 +128,17 @@ def break_text(text: str, fault: dict) -> tuple[str, tuple | None]:
                 break
         else:
             lines.insert(max(1, pos), '    hold-time banana;')
+        return '\n'.join(lines), None
+    if k == 'semantic':
+        # every statement parses; the file as a whole is refused late (after the new neighbors were built): a neighbor uses a
+        # helper process nobody defines, or `processes` together with `processes-match`
+        hits = [i for i, ln in enumerate(lines) if 'processes [ h1 ];' in ln]
+        if hits:
+            i = hits[pos % len(hits)]
+            if pos % 2:
+                lines[i] = lines[i].replace('processes [ h1 ];', 'processes [ ghost ];')
+            else:
+                lines.insert(i + 1, lines[i].replace('processes [ h1 ];', 'processes-match [ "^h" ];'))
         return '\n'.join(lines), None
     if k == 'torn':
         cut = fault['pos'] % max(1, len(text))
